@@ -132,3 +132,122 @@ func (o *Once) Do(f func()) {
 		o.n.Do(f)
 	}
 }
+
+// Map replaces sync.Map: a plain map under the modelled Mutex, so that every method is one atomic step with a
+// scheduling point in front of it (the linearizable behaviour sync.Map documents; its lock-free internals are not
+// modelled). Range iterates over a snapshot in insertion order of the keys' printed forms, which keeps executions
+// reproducible.
+type Map struct {
+	mu   Mutex
+	m    map[any]any
+	keys []any
+}
+
+func (m *Map) Load(key any) (value any, ok bool) {
+	m.mu.Lock()
+	defer m.mu.Unlock()
+	value, ok = m.m[key]
+	return
+}
+
+func (m *Map) Store(key, value any) {
+	m.mu.Lock()
+	defer m.mu.Unlock()
+	m.store(key, value)
+}
+
+func (m *Map) store(key, value any) {
+	if m.m == nil {
+		m.m = map[any]any{}
+	}
+	if _, ok := m.m[key]; !ok {
+		m.keys = append(m.keys, key)
+	}
+	m.m[key] = value
+}
+
+func (m *Map) LoadOrStore(key, value any) (actual any, loaded bool) {
+	m.mu.Lock()
+	defer m.mu.Unlock()
+	if v, ok := m.m[key]; ok {
+		return v, true
+	}
+	m.store(key, value)
+	return value, false
+}
+
+func (m *Map) LoadAndDelete(key any) (value any, loaded bool) {
+	m.mu.Lock()
+	defer m.mu.Unlock()
+	value, loaded = m.m[key]
+	m.del(key)
+	return
+}
+
+func (m *Map) Delete(key any) {
+	m.mu.Lock()
+	defer m.mu.Unlock()
+	m.del(key)
+}
+
+func (m *Map) del(key any) {
+	if _, ok := m.m[key]; !ok {
+		return
+	}
+	delete(m.m, key)
+	for i, k := range m.keys {
+		if k == key {
+			m.keys = append(m.keys[:i:i], m.keys[i+1:]...)
+			break
+		}
+	}
+}
+
+func (m *Map) Swap(key, value any) (previous any, loaded bool) {
+	m.mu.Lock()
+	defer m.mu.Unlock()
+	previous, loaded = m.m[key]
+	m.store(key, value)
+	return
+}
+
+func (m *Map) CompareAndSwap(key, old, new any) bool {
+	m.mu.Lock()
+	defer m.mu.Unlock()
+	if v, ok := m.m[key]; ok && v == old {
+		m.m[key] = new
+		return true
+	}
+	return false
+}
+
+func (m *Map) CompareAndDelete(key, old any) bool {
+	m.mu.Lock()
+	defer m.mu.Unlock()
+	if v, ok := m.m[key]; ok && v == old {
+		m.del(key)
+		return true
+	}
+	return false
+}
+
+func (m *Map) Range(f func(key, value any) bool) {
+	m.mu.Lock()
+	ks := append([]any{}, m.keys...)
+	m.mu.Unlock()
+	for _, k := range ks {
+		v, ok := m.Load(k)
+		if !ok {
+			continue
+		}
+		if !f(k, v) {
+			return
+		}
+	}
+}
+
+func (m *Map) Clear() {
+	m.mu.Lock()
+	defer m.mu.Unlock()
+	m.m, m.keys = nil, nil
+}
